@@ -22,6 +22,7 @@ KSTR == 1
 KFLT == 2
 KORD == 3
 KUNORD == 4
+KNEST == 5       \* orderable user class that is nested in another class (its qualified name differs from its name)
 
 \* PyTreeKind enum of the engine (registry.h)
 NCUSTOM == 0
@@ -68,10 +69,11 @@ Concat(ss) == IF ss = <<>> THEN <<>> ELSE Head(ss) \o Concat(Tail(ss))
 IsNumKey(k) == k[1] \in {KINT, KFLT}
 NumVal(k) == IF k[1] = KINT THEN 2 * k[2] ELSE 2 * k[2] + 1      \* FLT v stands for v + 0.5
 Comparable(a, b) == \/ IsNumKey(a) /\ IsNumKey(b)
-                    \/ a[1] = b[1] /\ a[1] \in {KSTR, KORD}
+                    \/ a[1] = b[1] /\ a[1] \in {KSTR, KORD, KNEST}
 KeyLt(a, b) == IF IsNumKey(a) /\ IsNumKey(b) THEN NumVal(a) < NumVal(b) ELSE a[2] < b[2]
-\* rank of f"{type.__module__}.{type.__qualname__}": builtins.float < builtins.int < builtins.str < vuniv.KOrd < vuniv.KUnord
-TypeRank(k) == CASE k[1] = KFLT -> 0 [] k[1] = KINT -> 1 [] k[1] = KSTR -> 2 [] k[1] = KORD -> 3 [] k[1] = KUNORD -> 4
+\* rank of f"{type.__module__}.{type.__qualname__}":
+\*   builtins.float < builtins.int < builtins.str < vuniv.KOrd < vuniv.KUnord < vuniv.Wrap.AOrd
+TypeRank(k) == CASE k[1] = KFLT -> 0 [] k[1] = KINT -> 1 [] k[1] = KSTR -> 2 [] k[1] = KORD -> 3 [] k[1] = KUNORD -> 4 [] k[1] = KNEST -> 5
 AllComparable(ks) == \A i, j \in DOMAIN ks : i # j => Comparable(ks[i], ks[j])
 SameTypeComparable(ks) == \A i, j \in DOMAIN ks : (i # j /\ ks[i][1] = ks[j][1]) => Comparable(ks[i], ks[j])
 TypedLt(a, b) == IF TypeRank(a) # TypeRank(b) THEN TypeRank(a) < TypeRank(b) ELSE KeyLt(a, b)
@@ -136,6 +138,7 @@ Flat(t, c, d) ==
       IN IF IsErr(sub) THEN sub
          ELSE IF k = "custom" /\ t.fault = "entiter" THEN Err("Type")
          ELSE IF k = "custom" /\ t.fault = "entlen" THEN Err("Runtime")
+         ELSE IF k = "custom" /\ t.fault = "entshort" /\ Len(kids) > 0 THEN Err("Runtime")
          ELSE
            LET node == [kind |-> KindNum(k), arity |-> Len(kids),
                         keys |-> IF IsDictKindName(k) THEN [i \in 1..Len(ord) |-> t.keys[ord[i]]] ELSE <<>>,
@@ -534,6 +537,7 @@ KeyRepr(k) == CASE k[1] = KINT -> IntRepr(k[2])
                                   ELSE "-" \o ToString(0 - k[2] - 1) \o ".5"
                 [] k[1] = KORD -> "KOrd(" \o ToString(k[2]) \o ")"
                 [] k[1] = KUNORD -> "KUnord(" \o ToString(k[2]) \o ")"
+                [] k[1] = KNEST -> "AOrd(" \o ToString(k[2]) \o ")"
 FactoryRepr(f) == CASE f = 0 -> "None" [] f = 1 -> "<class 'list'>" [] f = 2 -> "<class 'int'>"
                     [] f = 3 -> "<function fac3>" [] OTHER -> "<harness.vuniv._HistFactory object>"
 ClassName(c) == CASE c = 1 -> "CA" [] c = 2 -> "CB" [] c = 3 -> "CC" [] c = 4 -> "CU"
